@@ -49,6 +49,41 @@ def _attr(name: str, kind: str, gids: list[int], graphs: list) -> ir.Attr:
     return ir.AttrGraphs(name, [graphs[g] for g in gids])
 
 
+_VALUE_ATTR = {
+    "INT": lambda name: ir.AttrInt64(name, 3),
+    "FLOAT": lambda name: ir.AttrFloat32(name, 0.5),
+    "STRING": lambda name: ir.AttrString(name, "s"),
+    "INTS": lambda name: ir.AttrInt64s(name, [1, 0]),
+}
+
+
+def _ref_name(name: str, kind: str) -> str:
+    return f"p_{name}_{kind[4:].lower()}"
+
+
+def _plain_attr(name: str, kind: str) -> ir.Attr:
+    """An attribute that holds no graph: a value, or a reference to an attribute of the enclosing
+    function (``ir.RefAttr`` - also of type GRAPH / GRAPHS it has nothing in it)."""
+    if kind.startswith("ref-"):
+        return ir.RefAttr(name, _ref_name(name, kind), getattr(ir.AttributeType, kind[4:]))
+    return _VALUE_ATTR[kind](name)
+
+
+def node_attrs(n: dict, graphs: list) -> list[ir.Attr]:
+    """All attributes of a node of the spec, in the order the spec gives them."""
+    return [_attr(a[1], a[2], a[3], graphs) if a[0] == "graph" else _plain_attr(a[1], a[2]) for a in G.attr_sequence(n)]
+
+
+def function_attrs(spec: G.Spec) -> list[ir.Attr]:
+    """Declarations (no default) of the function attributes the reference attributes of the body refer to."""
+    out: dict[str, ir.Attr] = {}
+    for n in spec["nodes"]:
+        for _slot, name, kind in n.get("plain", []):
+            if kind.startswith("ref-"):
+                out.setdefault(_ref_name(name, kind), ir.Attr(_ref_name(name, kind), getattr(ir.AttributeType, kind[4:]), None))
+    return list(out.values())
+
+
 def build(spec: G.Spec, variant: str = "A", seed: int = 0) -> Built:
     """Three construction histories for the same structure and the same initial order:
 
@@ -105,8 +140,8 @@ def build(spec: G.Spec, variant: str = "A", seed: int = 0) -> Built:
         for gid in range(len(gspec)):
             make_graph(gid)
         for nid, n in enumerate(nspec):
-            for name, kind, gids in n["attrs"]:
-                nodes[nid].attributes[name] = _attr(name, kind, gids, graphs)
+            for attr in node_attrs(n, graphs):
+                nodes[nid].attributes[attr.name] = attr
         wiring = [(nid, k) for nid, n in enumerate(nspec) for k in range(len(n["inputs"]))]
         wiring += [(-1 - did, k) for did, d in enumerate(dspec) for k in range(len(d["inputs"]))]
     elif variant == "B":
@@ -122,8 +157,8 @@ def build(spec: G.Spec, variant: str = "A", seed: int = 0) -> Built:
             b.keepalive.append(ir.Graph([], [], nodes=[], name="junk"))
             make_graph(gid)
         for nid, n in enumerate(nspec):
-            for name, kind, gids in n["attrs"]:
-                nodes[nid].attributes[name] = _attr(name, kind, gids, graphs)
+            for attr in node_attrs(n, graphs):
+                nodes[nid].attributes[attr.name] = attr
         wiring = [(nid, k) for nid, n in enumerate(nspec) for k in range(len(n["inputs"]))]
         wiring += [(-1 - did, k) for did, d in enumerate(dspec) for k in range(len(d["inputs"]))]
         rng.shuffle(wiring)
@@ -135,7 +170,7 @@ def build(spec: G.Spec, variant: str = "A", seed: int = 0) -> Built:
             make_detached(did)
         for gid in sorted(range(len(gspec)), key=lambda g: (-depth[g], g)):
             for nid in gspec[gid]["order"]:
-                make_node(nid, [_attr(name, kind, gids, graphs) for name, kind, gids in nspec[nid]["attrs"]])
+                make_node(nid, node_attrs(nspec[nid], graphs))
             make_graph(gid)
         wiring = [(-1 - did, k) for did, d in enumerate(dspec) for k in range(len(d["inputs"]))]
         wiring += [(nid, k) for nid, n in reversed(list(enumerate(nspec))) for k in range(len(n["inputs"]))]
@@ -159,6 +194,9 @@ def build(spec: G.Spec, variant: str = "A", seed: int = 0) -> Built:
         if node.graph is not None:
             raise RuntimeError(f"C12 harness: detached node d{did} is still in a graph")
 
+    for nid, n in enumerate(nspec):
+        if n.get("plain") and list(nodes[nid].attributes) != [a[1] for a in G.attr_sequence(n)]:
+            raise RuntimeError(f"C12 harness: attributes of n{nid} are not in the spec's order")
     if history:
         apply_moves(nodes, graphs, history["moves"])
     b.nodes, b.graphs, b.detached, b.ginputs = nodes, graphs, dnodes, ginputs
@@ -310,6 +348,8 @@ def _child_graphs(node: ir.Node) -> list[ir.Graph]:
     for attr in node.attributes.values():
         if not isinstance(attr, ir.Attr):
             continue
+        if attr.is_ref() or attr.value is None:
+            continue  # a reference attribute (whatever its type) holds no graph
         if attr.type == ir.AttributeType.GRAPH:
             out.append(attr.value)
         elif attr.type == ir.AttributeType.GRAPHS:
@@ -361,11 +401,12 @@ def make_sorter(case: dict, builts: list[Built]):
     if target == "Graph.sort(subgraph)":
         return lambda: builts[0].graphs[case["sub"]].sort()
     if target == "Function.sort":
-        fn = ir.Function("c12", "f", graph=builts[0].graphs[0], attributes=[])
+        fn = ir.Function("c12", "f", graph=builts[0].graphs[0], attributes=function_attrs(case["units"][0]))
         builts[0].keepalive.append(fn)
         return lambda: fn.sort()
     if target == "TopologicalSortPass":
-        fns = [ir.Function("c12", f"f{k}", graph=bu.graphs[0], attributes=[]) for k, bu in enumerate(builts) if k]
+        fns = [ir.Function("c12", f"f{k}", graph=bu.graphs[0], attributes=function_attrs(case["units"][k]))
+               for k, bu in enumerate(builts) if k]
         model = ir.Model(builts[0].graphs[0], ir_version=10, functions=fns)
         builts[0].keepalive.append(model)
         return lambda: TopologicalSortPass()(model).modified
